@@ -19,7 +19,7 @@ LEVEL_TEXT = (
     "Bounded exploration of call histories over iteration-engine trees (two engines, transfers, chains, shared "
     "materialization nodes, counting leaf payloads): each history interleaves attach_payload on arbitrary nodes, "
     "execute() and Processor.process() on arbitrary sub-relations.  A model records the first non-None payload of every "
-    "node; the implementation must agree with it after every step, attach_payload must raise TypeError exactly when the "
+    "node (and on payload-less leaves); the implementation must agree with it after every step, attach_payload must raise TypeError exactly when the "
     "model says so, leaf iteration starts must stay within the number of root-to-leaf paths not crossing an already "
     "cached materialization, and each materialization name sees at most one hook call."
 )
